@@ -44,7 +44,15 @@ RULE = ("E2 (correspondence): the shared online generator of harness/e2.py drive
         "2-3 variables change at once and then a proper subset goes back to its earlier value while the others "
         "keep the new one; after every start: return code 0, every file equal to a from-scratch build in that "
         "environment; a rebuild with nothing changed (always after the last environment, sometimes in between) "
-        "executes nothing, changes nothing and reports no changed variable. Direct glob oracle on the real Workflow: 2-4 registrations "
+        "executes nothing, changes nothing and reports no changed variable. The skip rule on every cone rebuild "
+        "with return code 0: an executed step that was declared as before, consumes no edited path and whose "
+        "input files all have the same content after the rebuild as before it is a failure (a step whose inputs "
+        "did not change is skipped, not executed). Directed cases for it (both flavours): absorber steps that "
+        "reproduce a constant output from an edited source, chains of 1-3 steps behind them that track 0-2 "
+        "variables among SOURCE_DATE_EPOCH, STEPUP_ROOT, STEPUP_BUILD_LOG_LEVEL (injected or overridden by the "
+        "director, so Executor.base_env differs from os.environ for them) and VA, next to steps whose input "
+        "really changes; and the same steps declared by a nested sub-plan that is recycled when a byte is "
+        "appended to plan.py. Direct glob oracle on the real Workflow: 2-4 registrations "
         "of one pattern with sub-patterns {none,[0-9],[a-z],[A-Z]} owned by the plan and two other steps; "
         "startup.rescan_nglobs and process_nglob_changes with nothing changed must leave steps, stored hashes "
         "and recorded matches alone; after one file appears or disappears exactly the owners whose match set "
@@ -86,6 +94,9 @@ SETTINGS = {
 NGLOB_CASES = {"quick": 40, "thorough": 600}
 # directed E3 restart cases: steps tracking 2-4 environment variables, several changed at once, a subset reverted
 ENV_MULTI_CASES = {"quick": 24, "thorough": 400}
+# directed E3 cases (per flavour): an edit absorbed by an identically rebuilt output, downstream steps that track
+# variables the director injects; a plan rerun that recycles a nested sub-plan
+ABSORBED_CASES = {"quick": 12, "thorough": 200}
 # 4 of 7 E3 cases carry several glob registrations that share one pattern string (c04_e3.add_shared_globs)
 SHARED_GLOBS = [None, "one_plan", None, "static_and_glob", "two_steps", None, "one_plan+static_and_glob"]
 
@@ -457,6 +468,9 @@ def _e3_items(ctx, scale=1):
                       "shared_globs": SHARED_GLOBS[k % 7]})
     for k in range(ENV_MULTI_CASES[ctx.tier] * scale):
         items.append({"seed": base + 40000 + k, "flavour": "restart", "kind": "env_multi", "njob": 1 + k % 2})
+    for k in range(ABSORBED_CASES[ctx.tier] * scale):
+        for flavour in ("restart", "watch"):
+            items.append({"seed": base + 60000 + k, "flavour": flavour, "kind": "absorbed", "njob": 1 + k % 2})
     return items
 
 
@@ -514,6 +528,8 @@ def _run_e3(ctx, items):
                     ctx.case(("e3", item["seed"], item["flavour"], k, j), nontrivial=True)
         if item.get("kind") == "env_multi":
             ctx.count("e3:env_multi_cases")
+        if item.get("kind") == "absorbed":
+            ctx.count("e3:absorbed_cases")
         if item.get("shared_globs"):
             ctx.count("e3:cases_with_shared_pattern_registrations")
             ctx.count("e3:noop_rebuilds_on_shared_pattern_projects",
